@@ -30,6 +30,12 @@ type SimAPI struct {
 	rv      int64
 	uid     int64
 	Pending map[string][]Event // resource -> undelivered watch events
+	// Mirror is a second, independent subscription to the same watch stream (another PROCESS
+	// with its own informers, e.g. the admission webhook server): every event emitted for a
+	// resource listed in MirrorOn is appended here as well and delivered through its own cursor
+	// (DeliverOneMirror).  Nothing is mirrored unless MirrorOn says so.
+	Mirror   map[string][]Event
+	MirrorOn map[string]bool
 	// Fault decides the fate of one call; nil or "" = ok.
 	Fault func(c Call) string
 	// Admit, when set, is invoked on create/update of jobs and jobconfigs (webhooks).
@@ -81,7 +87,7 @@ const (
 
 func NewSimAPI(c clock.PassiveClock) *SimAPI {
 	return &SimAPI{Clock: c, objs: map[string]map[string]runtime.Object{"jobs": {}, "jobconfigs": {}, "pods": {}},
-		Pending: map[string][]Event{}}
+		Pending: map[string][]Event{}, Mirror: map[string][]Event{}, MirrorOn: map[string]bool{}}
 }
 
 // Install hooks the simulation into the fake clientsets of ctx.
@@ -124,6 +130,9 @@ func (a *SimAPI) nextRV() string { a.rv++; return fmt.Sprint(a.rv) }
 
 func (a *SimAPI) emit(resource, typ string, obj runtime.Object) {
 	a.Pending[resource] = append(a.Pending[resource], Event{typ, obj.DeepCopyObject(), a.curVerb, a.delRun})
+	if a.MirrorOn[resource] {
+		a.Mirror[resource] = append(a.Mirror[resource], Event{typ, obj.DeepCopyObject(), a.curVerb, a.delRun})
+	}
 }
 
 // SortDeleteRuns orders, by object key, every maximal run of consecutive events caused by
@@ -471,6 +480,19 @@ func (a *SimAPI) DeliverOne(resource string, inf *FakeInformer) bool {
 	}
 	ev := q[0]
 	a.Pending[resource] = q[1:]
+	inf.Deliver(ev.Type, ev.Obj)
+	return true
+}
+
+// DeliverOneMirror applies the oldest undelivered event of the mirrored stream of a resource to
+// the informer of the second subscriber.  Returns false if nothing was pending.
+func (a *SimAPI) DeliverOneMirror(resource string, inf *FakeInformer) bool {
+	q := a.Mirror[resource]
+	if len(q) == 0 {
+		return false
+	}
+	ev := q[0]
+	a.Mirror[resource] = q[1:]
 	inf.Deliver(ev.Type, ev.Obj)
 	return true
 }
